@@ -2301,6 +2301,79 @@ BENIGN = [
         while element:
             yield element.pop()""", """        while element:
             yield element.pop(0)""")),
+    # ---- behaviour-preserving rewrites of conditions the scenario obligations look at
+    B("benign-wakeup-early-return", ["C01", "C02", "C05", "C20"],
+      (PE, """    def wakeup(self):
+        if not self._closed:
+            self._writer.send_bytes(b"")""", """    def wakeup(self):
+        if self._closed:
+            return
+        self._writer.send_bytes(b"")""")),
+    B("benign-manager-result-none-else", ["C01", "C02", "C05", "C06"],
+      (PE, """            if result_item is not None:
+                self.process_result_item(result_item)
+                # Delete reference to result_item to avoid keeping references
+                # while waiting on new results.
+                del result_item""", """            if result_item is None:
+                pass
+            else:
+                self.process_result_item(result_item)
+                # Delete reference to result_item to avoid keeping references
+                # while waiting on new results.
+                del result_item""")),
+    B("benign-terminate-broken-len-loop", ["C01", "C02", "C06"],
+      (PE, """        while self.pending_work_items:
+            try:
+                _, work_item = self.pending_work_items.popitem()
+            except KeyError:
+                break
+            try:
+                work_item.future.set_exception(bpe)""", """        while len(self.pending_work_items) > 0:
+            try:
+                _, work_item = self.pending_work_items.popitem()
+            except KeyError:
+                break
+            try:
+                work_item.future.set_exception(bpe)""")),
+    B("benign-event-is-set-early-return", ["C14"],
+      (SY, """            if self._flag.acquire(False):
+                self._flag.release()
+                return True
+            return False
+
+    def set(self):""", """            if not self._flag.acquire(False):
+                return False
+            self._flag.release()
+            return True
+
+    def set(self):""")),
+    B("benign-resize-same-size-operands-swapped", ["C09", "C10"],
+      (RE, """            elif max_workers == self._max_workers:
+                return""", """            elif self._max_workers == max_workers:
+                return""")),
+    B("benign-kill-esrch-positive-form", ["C06"],
+      (UT, """        if e.errno != errno.ESRCH:
+            raise  # pragma: no cover""", """        if e.errno == errno.ESRCH:
+            return
+        raise  # pragma: no cover""")),
+    B("benign-tracker-sweep-without-continue", ["C11", "C13"],
+      (RT, """            if rtype == "folder":
+                continue
+            else:
+                _unlink_resources(rtype_registry, rtype)""", """            if rtype != "folder":
+                _unlink_resources(rtype_registry, rtype)""")),
+    B("benign-submit-gate-shutdown-first", ["C01", "C02", "C05"],
+      (PE, """            if self._flags.broken is not None:
+                raise self._flags.broken
+            if self._flags.shutdown:
+                raise ShutdownExecutorError(
+                    "cannot schedule new futures after shutdown"
+                )""", """            if self._flags.broken is not None:
+                raise self._flags.broken
+            elif self._flags.shutdown:
+                raise ShutdownExecutorError(
+                    "cannot schedule new futures after shutdown"
+                )""")),
     B("benign-increment-spelled-out", None,
       (PE, """                    n_sentinels_sent += 1""", """                    n_sentinels_sent = n_sentinels_sent + 1"""),
       (PE, """            self._queue_count += 1""", """            self._queue_count = self._queue_count + 1"""),
